@@ -1,2 +1,309 @@
-//! C11 — on-chain conclusions depend only on the chain, not on how it was delivered (stub while building).
-fn main() {}
+//! C11 — on-chain conclusions depend only on the chain, not on how it was delivered.
+//!
+//! Differential check: one scenario (world, traffic prefix leaving pending HTLCs, force close or none, a chain
+//! script with forks of depth 1..=ANTI_REORG_DELAY) is executed k = 3..4 times; the node under observation is
+//! told about the identical block tree through different `Listen` / `Confirm` schedules (engine and the
+//! contract rules it follows: `netsim::ext_c11`). Oracles: (a) equal conclusions at every common tip,
+//! (b) nothing irreversible before burial, (c) retraction after shallow reorgs (through (a) against the replica
+//! that never saw the losing fork, plus the set of outputs being claimed).
+use netsim::ext_c11::*;
+use netsim::ops::*;
+use proptest::prelude::*;
+use serde::{Deserialize, Serialize};
+use serde_json::json;
+use vcore::*;
+
+#[derive(Clone, Debug, Serialize, Deserialize)]
+struct Case {
+	sc: Scenario,
+	/// delivery plans of replicas 1..; replica 0 is told everything through plain `block_connected` /
+	/// `blocks_disconnected(fork point)`. The last plan only ever sees the final chain.
+	plans: Vec<Plan>,
+}
+
+fn prefix_weights() -> OpWeights {
+	OpWeights { send: 30, claim: 7, fail: 3, deliver: 22, flush: 6, events: 10, forwards: 10, pump: 14, ..OpWeights::zero() }
+}
+
+fn sel_strat() -> impl Strategy<Value = Sel> {
+	prop_oneof![
+		5 => Just(Sel::All),
+		2 => Just(Sel::Rev),
+		2 => any::<u16>().prop_map(Sel::One),
+		1 => (any::<u16>(), any::<u16>()).prop_map(|(a, b)| Sel::Two(a, b)),
+		1 => Just(Sel::None),
+	]
+}
+
+fn fate_strat() -> impl Strategy<Value = Fate> {
+	prop_oneof![3 => Just(Fate::Same), 2 => Just(Fate::Later), 3 => Just(Fate::Conflict), 3 => Just(Fate::Drop)]
+}
+
+fn step_strat() -> impl Strategy<Value = Step> {
+	prop_oneof![
+		6 => (sel_strat(), prop_oneof![0u8..3, 0u8..7, Just(4u8), Just(5u8)]).prop_map(|(sel, empty)| Step::Mine { sel, empty }),
+		2 => (any::<u16>(), -4i8..9).prop_map(|(which, delta)| Step::ToExpiry { which, delta }),
+		5 => (prop_oneof![1u8..=6, 1u8..=3, Just(5u8), Just(6u8)], proptest::collection::vec(fate_strat(), 1..4), 1u8..=2).prop_map(|(depth, fates, extra)| Step::Fork { depth, fates, extra }),
+		2 => any::<u16>().prop_map(|pay| Step::Claim { pay }),
+	]
+}
+
+fn conn_strat() -> impl Strategy<Value = Conn> {
+	prop_oneof![
+		4 => (0u8..11).prop_map(Conn::Helper),
+		5 => (any::<bool>(), proptest::bool::weighted(0.3), proptest::bool::weighted(0.3), proptest::bool::weighted(0.4), proptest::bool::weighted(0.3), proptest::bool::weighted(0.2))
+			.prop_map(|(best_first, dup, skip_best, filtered, split, mgr_first)| Conn::Confirm { best_first, dup, skip_best, filtered, split, mgr_first }),
+		2 => (any::<bool>(), proptest::bool::weighted(0.2)).prop_map(|(filtered, mgr_first)| Conn::Listen { filtered, mgr_first }),
+	]
+}
+
+fn disc_strat() -> impl Strategy<Value = Disc> {
+	prop_oneof![
+		4 => (0u8..11).prop_map(Disc::Helper),
+		3 => (any::<bool>(), proptest::bool::weighted(0.2)).prop_map(|(then_best, mgr_first)| Disc::Unconfirm { then_best, mgr_first }),
+		3 => (1u8..=3, any::<bool>(), proptest::bool::weighted(0.2)).prop_map(|(chunks, full_locator, mgr_first)| Disc::ForkPoint { chunks, full_locator, mgr_first }),
+	]
+}
+
+/// a replica driven only by the repo's own eleven styles, changed from step to step
+fn styled_plan() -> impl Strategy<Value = Plan> {
+	proptest::collection::vec((0u8..11, 0u8..11), 1..4).prop_map(|v| Plan { final_only: false, steps: v.into_iter().map(|(a, b)| PStep { lag: false, conn: Conn::Helper(a), disc: Disc::Helper(b) }).collect() })
+}
+
+fn mixed_plan() -> impl Strategy<Value = Plan> {
+	proptest::collection::vec((proptest::bool::weighted(0.2), conn_strat(), disc_strat()), 2..7).prop_map(|v| Plan { final_only: false, steps: v.into_iter().map(|(lag, conn, disc)| PStep { lag, conn, disc }).collect() })
+}
+
+fn linear_plan() -> impl Strategy<Value = Plan> {
+	proptest::collection::vec((conn_strat(), disc_strat()), 1..3).prop_map(|v| Plan { final_only: true, steps: v.into_iter().map(|(conn, disc)| PStep { lag: false, conn, disc }).collect() })
+}
+
+fn strat(max_steps: usize) -> impl Strategy<Value = Case> {
+	let closure = prop_oneof![
+		1 => Just(Closure::None),
+		6 => (any::<u16>(), any::<bool>(), proptest::bool::weighted(0.6)).prop_map(|(chan, by_observed, tell_peer)| Closure::Force { chan, by_observed, tell_peer }),
+	];
+	let scenario = (
+		world_spec(vec![Topology::Pair, Topology::Pair, Topology::Line3, Topology::Line3, Topology::Line3]),
+		proptest::collection::vec(op_strategy(prefix_weights()), 6..26),
+		prop_oneof![Just(0x8000u16), any::<u16>()],
+		closure,
+		proptest::collection::vec(step_strat(), 4..max_steps),
+	)
+		.prop_map(|(spec, prefix, observed, closure, script)| Scenario { spec, prefix, observed, closure, script });
+	let plans = (prop_oneof![styled_plan().boxed(), mixed_plan().boxed()], proptest::option::weighted(0.6, mixed_plan()), linear_plan()).prop_map(|(a, b, c)| {
+		let mut v = vec![a];
+		if let Some(b) = b {
+			v.push(b);
+		}
+		v.push(c);
+		v
+	});
+	(scenario, plans).prop_map(|(sc, plans)| Case { sc, plans })
+}
+
+fn dump(title: &str, r: &Runner) {
+	println!("==== {} : chain client calls ====", title);
+	for l in r.calls() {
+		println!("{}", l);
+	}
+	println!("==== {} : history ====\n{}", title, r.history());
+}
+
+type Panic = Box<dyn std::any::Any + Send>;
+
+fn guarded<T>(f: impl FnOnce() -> T) -> Result<T, Panic> {
+	std::panic::catch_unwind(std::panic::AssertUnwindSafe(f))
+}
+
+/// A panic inside the library fails the case (the runner turns it into `panic@file:line`), except for the test
+/// broadcaster's own tripwire "never broadcast a transaction before its locktime": that is a statement about
+/// the validity / timing of broadcasts (C07/C08), it fires when a reorg moves the tip back below an HTLC expiry
+/// for which a timeout claim had already been generated, and says nothing about delivery equivalence.
+fn on_panic(p: Panic, ctx: &mut Ctx, title: &str, r: &Runner, debug: bool) -> CaseResult {
+	let lp = take_last_panic();
+	let foreign = lp.as_ref().map(|(m, _)| m.contains("never broadcast a transaction before its locktime")).unwrap_or(false);
+	if debug {
+		dump(title, r);
+	}
+	if foreign && std::env::var("VERIF_DEBUG_FOREIGN").is_err() {
+		ctx.label("foreign-failure:C07:broadcast-before-locktime-after-reorg");
+		return Ok(());
+	}
+	set_last_panic(lp);
+	std::panic::resume_unwind(p)
+}
+
+fn oracle(c: &Case, ctx: &mut Ctx) -> CaseResult {
+	let debug = ctx.replay;
+	// replica 0 executes the script and records the block tree
+	let mut r0 = Runner::setup(&c.sc, debug);
+	let fp0 = r0.fingerprint().to_string();
+	let built = match guarded(|| r0.build(&c.sc)) {
+		Ok(x) => x,
+		Err(p) => return on_panic(p, ctx, "replica 0 (panicked)", &r0, debug),
+	};
+	let trace = match built {
+		Ok(t) => t,
+		Err(f) => {
+			if debug {
+				dump("replica 0 (plain Listen, builds the chain)", &r0);
+			}
+			return Err(f);
+		},
+	};
+	let out0 = r0.finish_out();
+	let mut outs: Vec<RunOut> = vec![];
+	let mut compared = 0u64;
+	let mut compared_after_reorg = 0u64;
+	let mut outcome_labels: Vec<String> = vec![];
+	for (pi, plan) in c.plans.iter().enumerate() {
+		let mut r = Runner::setup(&c.sc, debug);
+		if r.fingerprint() != fp0 {
+			// the scripted transactions must exist identically in every replica; LDK's randomised hash maps can
+			// make two executions of the same prefix differ - such a case says nothing about C11
+			ctx.label("replica-divergence-in-prefix");
+			ctx.discard();
+			return Ok(());
+		}
+		let followed = match guarded(|| r.follow(&trace, plan)) {
+			Ok(x) => x,
+			Err(p) => {
+				if debug {
+					println!("plan of replica {}: {:?}", pi + 1, plan);
+				}
+				return on_panic(p, ctx, &format!("replica {} (panicked)", pi + 1), &r, debug);
+			},
+		};
+		if let Err(f) = followed {
+			if debug {
+				println!("plan of replica {}: {:?}", pi + 1, plan);
+				dump(&format!("replica {}", pi + 1), &r);
+			}
+			return Err(f);
+		}
+		let out = r.finish_out();
+		// (a)/(c): equal conclusions wherever this replica and replica 0 had been told the same best chain
+		for (idx, s) in out.snaps.iter() {
+			let Some(s0) = out0.snaps.get(idx) else { continue };
+			match compare(s0, s) {
+				Ok(kind) => {
+					outcome_labels.push(format!("compare:{}", kind));
+					if kind == "peer-divergence" {
+						break;
+					}
+					compared += 1;
+					if trace.first_relevant_reorg.map(|r| *idx > r).unwrap_or(false) {
+						compared_after_reorg += 1;
+					}
+				},
+				Err((view, detail)) => {
+					if view == "harness-tip" {
+						return Err(Failure::new("harness-error", detail));
+					}
+					if debug {
+						println!("plan of replica {}: {:?}", pi + 1, plan);
+						println!("replica 0 at event {}: {:#?}", idx, s0);
+						println!("replica {} at event {}: {:#?}", pi + 1, idx, s);
+						println!("==== replica {} : chain client calls ====", pi + 1);
+						for l in out.calls.iter() {
+							println!("{}", l);
+						}
+					}
+					let only_final = plan.final_only;
+					return Err(Failure::new(
+						"equivalence",
+						format!(
+							"after trace event {} of {} (tip {}) replica {} ({}; modes {:?}) and replica 0 (plain block_connected / blocks_disconnected) were told the same best chain but conclude differently: {}",
+							idx,
+							trace.evs.len(),
+							s.tip,
+							pi + 1,
+							if only_final { "only ever told the final chain" } else { "told the forks as its plan says" },
+							out.modes,
+							detail
+						),
+					)
+					.with_key(format!("equivalence/{}", view)));
+				},
+			}
+		}
+		outs.push(out);
+	}
+	// labels
+	ctx.label(match c.sc.spec.topo {
+		Topology::Pair => "topo:pair",
+		_ => "topo:line3",
+	});
+	ctx.label(&format!("type:{:?}", c.sc.spec.ctype));
+	ctx.label(&format!("closure:{}", out0.closure));
+	ctx.label_if(out0.pending_at_script_start > 0, "htlcs-pending-at-script-start");
+	ctx.label_if(out0.tracked > 0, "outbound-htlc-committed-at-script-start");
+	ctx.label_if(trace.reorgs > 0, "reorg");
+	ctx.label_if(trace.relevant_removed > 0, "reorg-removes-channel-tx");
+	ctx.label_if(trace.max_depth == 6, "fork-depth-6");
+	ctx.label_if(trace.conflicts_mined > 0, "competing-branch-has-conflicting-tx");
+	ctx.label_if(trace.dropped > 0, "competing-branch-drops-tx");
+	ctx.label_if(trace.txs_mined > 0, "channel-txs-mined");
+	let mut all_labels: std::collections::BTreeSet<String> = out0.labels.clone();
+	let mut mode_sets: std::collections::BTreeSet<Vec<String>> = std::collections::BTreeSet::new();
+	mode_sets.insert(out0.modes.iter().cloned().collect());
+	let mut st = (out0.stats.failbacks_checked, out0.stats.spendable_checked, out0.stats.balance_forgets_checked, out0.stats.failbacks_near_expiry);
+	for o in outs.iter() {
+		all_labels.extend(o.labels.iter().cloned());
+		mode_sets.insert(o.modes.iter().cloned().collect());
+		for m in o.modes.iter() {
+			ctx.label(&format!("mode:{}", m));
+		}
+		st.0 += o.stats.failbacks_checked;
+		st.1 += o.stats.spendable_checked;
+		st.2 += o.stats.balance_forgets_checked;
+		st.3 += o.stats.failbacks_near_expiry;
+	}
+	for l in all_labels.iter() {
+		ctx.label(l);
+	}
+	outcome_labels.sort();
+	outcome_labels.dedup();
+	for l in outcome_labels.iter() {
+		ctx.label(l);
+	}
+	ctx.label_if(st.0 > 0, "b1-failback-burial-checked");
+	ctx.label_if(st.1 > 0, "b2-spendable-burial-checked");
+	ctx.label_if(st.2 > 0, "b3-balance-forget-burial-checked");
+	ctx.label_if(compared_after_reorg > 0, "compared-after-relevant-reorg");
+	ctx.sub_evaluations(compared + st.0 + st.1 + st.2);
+	// non-trivial: a reorg removed a channel transaction, and at least two replicas with genuinely different
+	// delivery plans were compared at a common tip afterwards
+	ctx.nontrivial_if(trace.relevant_removed > 0 && compared_after_reorg > 0 && mode_sets.len() >= 2);
+	ctx.summary(json!({
+		"topo": format!("{:?}", c.sc.spec.topo), "type": format!("{:?}", c.sc.spec.ctype), "closure": out0.closure,
+		"trace_events": trace.evs.len(), "blocks": trace.blocks, "reorgs": trace.reorgs, "max_fork_depth": trace.max_depth,
+		"channel_txs_removed_by_reorgs": trace.relevant_removed, "txs_mined": trace.txs_mined,
+		"replicas": 1 + c.plans.len(), "modes": outs.iter().map(|o| o.modes.iter().cloned().collect::<Vec<_>>()).collect::<Vec<_>>(),
+		"snapshots_compared": compared,
+	}));
+	Ok(())
+}
+
+fn main() {
+	let mut c = Check::new("C11", "exploration");
+	c.assume("replicas are deterministic re-executions of the whole scenario (same seeds and keys), not restores of one serialized image; a case whose prefix does not reproduce identically (funding / commitment txids, pending HTLCs) is discarded");
+	c.assume("the block tree is built once by replica 0 from the transactions its nodes broadcast; every replica is given the identical blocks, only the observed node's Listen/Confirm call schedule differs; the other nodes always see every block");
+	c.assume("knowledge that does not come from the best chain is not expected to be retracted: a preimage or a counterparty commitment shown only in a losing fork, and anything concluded from a transaction that had reached ANTI_REORG_DELAY confirmations before it was reorganised out; such replicas are compared on best block and relevant txids only");
+	c.assume("transient broadcasts are not compared; the set of outputs being claimed is probed with ChainMonitor::rebroadcast_pending_claims at common tips");
+	c.assume("reorgs never reach the channel-establishment blocks (funding is never unconfirmed); restarts are not part of the delivery plans");
+	c.set_case_timeout_secs(240);
+	c.part_with(
+		PartSpec {
+			name: "delivery-equivalence",
+			rule: "pair / line-of-3 worlds, traffic leaving pending HTLCs, force close by either side (told or silent) or none, chain script of mined candidate sets, runs of empty blocks, jumps to HTLC expiries, late claims and forks of depth 1..6 whose competing branch re-mines / delays / replaces by a conflicting spend / drops each removed transaction; 3-4 replicas: plain Listen, the eleven ConnectStyles switched per step, Confirm/Listen mixes (filtered, duplicated, split, best-block first or skipped, per-tx unconfirm, fork-point disconnect in one or several calls, lagging), and one that only ever sees the final chain. Non-trivial: a reorg removed >=1 channel transaction and replicas with different call schedules were compared at a common tip afterwards",
+			quick_cases: 900,
+			thorough_cases: 30_000,
+			max_shrink: 200,
+		},
+		|| strat(13),
+		oracle,
+	);
+	c.finish();
+}
